@@ -1,9 +1,10 @@
 package rewriter
 
 const (
-	cstIterVar  = "ɪʇ" // it۰
-	cstMoveNext = "MoveNext"
-	cstCurrent  = "Current"
+	cstIterVar        = "ɪʇ" // it۰
+	cstArrayTmpSuffix = "ᴀ"  // temporary holding an unaddressable array operand
+	cstMoveNext       = "MoveNext"
+	cstCurrent        = "Current"
 
 	cstYieldFromRangeVar = "ʌ" // v۰
 
